@@ -27,6 +27,7 @@ import random
 from harness.c01 import (
     BOUNDARIES,
     ShortReader,
+    canon_event,
     canon_form,
     chunks_of,
     decode_real,
@@ -109,6 +110,54 @@ def count_parts(evs):
     return sum(1 for e in evs if e[:2] in ("F:", "U:"))
 
 
+def guard_reference(bd, chunks, mm, mp, field_guard):
+    """Where must RequestEntityTooLarge be raised - and nowhere else? The real decoder is run WITHOUT
+    limits on the same chunks and its observables are walked in order: `receive_data` must refuse a chunk
+    exactly when len(buffer) + len(chunk) > max_form_memory_size, the part counter must refuse exactly the
+    (max_parts + 1)-th Field/File event, and (for MultiPartParser, `field_guard`) a Data event must be
+    refused exactly when it takes the accumulated size of a non-file field above max_form_memory_size.
+    Returns (events delivered before the first such point, reason) or (all events, None)."""
+    from werkzeug.sansio.multipart import Data, Epilogue, Field, File, MultipartDecoder, NeedData
+
+    d = MultipartDecoder(bd)
+    events, nparts, fsize = [], 0, None
+    try:
+        for c in [*chunks, None]:
+            if c is not None and mm is not None and len(d.buffer) + len(c) > mm:
+                return events, f"receive_data would hold {len(d.buffer) + len(c)} bytes > max_form_memory_size={mm}"
+            d.receive_data(c)
+            while True:
+                ev = d.next_event()
+                if isinstance(ev, NeedData):
+                    break
+                if isinstance(ev, File):
+                    nparts, fsize = nparts + 1, None
+                elif isinstance(ev, Field):
+                    nparts, fsize = nparts + 1, 0
+                if isinstance(ev, (Field, File)) and mp is not None and nparts > mp:
+                    return events, f"part {nparts} > max_form_parts={mp}"
+                if isinstance(ev, Data) and field_guard and mm is not None and fsize is not None:
+                    fsize += len(ev.data)
+                    if fsize > mm:
+                        return events, f"non-file field grew to {fsize} bytes > max_form_memory_size={mm}"
+                events.append(canon_event(ev))
+                if isinstance(ev, Epilogue):
+                    break
+    except Exception as e:  # noqa: BLE001 - malformed input: the unlimited run fails by itself
+        return events, "EXC:" + type(e).__name__
+    return events, None
+
+
+def exact_guard_verdict(ref_reason, got_413):
+    """None, or what is wrong about raising / not raising RequestEntityTooLarge"""
+    must = ref_reason is not None and not ref_reason.startswith("EXC:")
+    if must and not got_413:
+        return f"{ref_reason}, but RequestEntityTooLarge was not raised"
+    if got_413 and not must:
+        return "RequestEntityTooLarge raised although no limit is exceeded (buffer, part count and field sizes all within the limits)"
+    return None
+
+
 class DecoderLimits(Stream):
     name = "limits-decoder"
 
@@ -149,6 +198,13 @@ class DecoderLimits(Stream):
             return f"decoder.buffer held {max(lens)} bytes with max_form_memory_size={mm}"
         if mp is not None and count_parts(evs) > mp:
             return f"{count_parts(evs)} parts delivered with max_parts={mp}"
+        # the limits are exact: 413 at the first point where a limit is exceeded, and only there
+        ref_evs, reason = guard_reference(unhx(case["b"]), chunks_of(unhx(case["body"]), case["cuts"]), mm, mp, False)
+        bad = exact_guard_verdict(reason, err == "EXC:" + R413)
+        if bad is not None:
+            return bad
+        if err == "EXC:" + R413 and evs != ref_evs:
+            return f"RequestEntityTooLarge raised after {len(evs)} events, the first exceeded limit is after {len(ref_evs)} ({reason})"
         ev0, err0, _ = decode_real(unhx(case["b"]), chunks_of(unhx(case["body"]), case["cuts"]))
         err0 = "ok" if err0 is None else "EXC:" + err0
         if err == "ok":
@@ -167,6 +223,26 @@ class DecoderLimits(Stream):
 
     def nontrivial(self, case, real_out):
         return case["mm"] is not None or case["mp"] is not None
+
+
+def field_at_limit_cases(rng, n):
+    """one non-file field of exactly L - 1, L or L + 1 bytes under max_form_memory_size = L, read in
+    pieces small enough that the decoder buffer stays below L: only the field-size comparison decides.
+    The same for the part count: exactly max_form_parts - 1, max_form_parts, max_form_parts + 1 parts."""
+    for _ in range(n):
+        L = rng.choice([120, 200, 300, 1000])
+        size = L + rng.choice([-1, 0, 0, 1])
+        bs = rng.choice([5, 8, 16, 30])
+        bd = rng.choice([b"B", b"bound"])
+        payload = b"v" * size if rng.random() < 0.6 else bytes(rng.choice(b"vw \r\n-") for _ in range(size)).replace(b"\n--", b"\n.-").replace(b"\r--", b"\r.-")
+        parts = [("a", None, [], payload, False)]
+        if rng.random() < 0.3:
+            parts.append(("up", "f", [], b"d" * rng.choice([1, 500]), False))
+        k = len(parts) + rng.choice([0, 0, 1, 2])
+        while len(parts) < k:
+            parts.append((f"p{len(parts)}", rng.choice([None, None, ""]), [], b"", rng.random() < 0.5))
+        mp = max(0, len(parts) + rng.choice([-1, 0, 0, 1])) if rng.random() < 0.6 else None
+        yield {"b": hx(bd), "body": hx(render(bd, b"\r\n", parts)), "bs": bs, "sched": [], "mm": L, "mp": mp}
 
 
 def field_over_limit_cases(rng, n):
@@ -203,6 +279,7 @@ class ParserLimits(Stream):
 
     def cases(self, rng, tier):
         yield from field_over_limit_cases(rng, 400 if tier == "quick" else 6000)
+        yield from field_at_limit_cases(rng, 250 if tier == "quick" else 4000)
         for _ in range(1500 if tier == "quick" else 25000):
             bd, body = sized_body(rng)
             L = len(body)
@@ -258,6 +335,18 @@ class ParserLimitsChecked(ParserLimits):
         why = self.must_413(case)
         if why is not None and real_out != "EXC:" + R413:
             return f"{why} but parsing answered {real_out[:80]}"
+        # exactness in both directions, on the chunks the parser really reads
+        rd = ShortReader(unhx(case["body"]), case["sched"])
+        chunks = []
+        while True:
+            c = rd.read(case["bs"])
+            if not c:
+                break
+            chunks.append(c)
+        _, reason = guard_reference(unhx(case["b"]), chunks, case["mm"], case["mp"], True)
+        bad = exact_guard_verdict(reason, real_out == "EXC:" + R413)
+        if bad is not None:
+            return bad + f" (buffer_size={case['bs']})"
         return None
 
 
@@ -875,6 +964,17 @@ class RequestHistories(Stream):
             why = self.certain_413(case)
             if why is not None and obs[idx] != e413:
                 return f"{why}, history {ops[: idx + 1]}: access {ops[idx]} was answered {obs[idx][:60]}"
+            # exactness in both directions: the parser reads the whole body in 64 KiB pieces
+            body = unhx(case["body"])
+            if case["mime"] == "mp" and case["b"] not in ("", "-"):
+                _, reason = guard_reference(unhx(case["b"]), [body[i : i + 65536] for i in range(0, len(body), 65536)], case["mm"], case["mp"], True)
+            elif case["mime"] == "url":
+                reason = f"urlencoded body of {L} bytes > max_form_memory_size={case['mm']}" if case["mm"] is not None and L > case["mm"] else None
+            else:
+                reason = None
+            bad = exact_guard_verdict(reason, obs[idx] == e413)
+            if bad is not None:
+                return f"{bad}, history {ops[: idx + 1]}"
         return None
 
     def finding_key(self, case, what):
@@ -923,8 +1023,8 @@ class RequestHistories(Stream):
 
 CHECK = Check(
     prop="C10",
-    gen=["Multipart", "Urlencode", "FormGlue", "PyFns_Multipart"],
-    modules=["WzVerif.Props.C10", "WzVerif.Props.C10T"],
+    gen=["Multipart", "Urlencode", "FormGlue", "PyFns_Multipart", "PyFns_Decoder"],
+    modules=["WzVerif.Props.C10", "WzVerif.Props.C10T", "WzVerif.Props.C10T2"],
     streams=[DecoderLimits(), ParserLimitsChecked(), UrlRead(), RequestLimits(), RequestHistories()],
     assumptions=[
         "C10T (MultipartDecoder.receive_data as regenerated from the source): bytearray.extend is modelled as appending (prelude, kernel row bytearray); the limit attribute is an Optional int handed over as such",
@@ -941,7 +1041,7 @@ CHECK = Check(
 )
 
 MANIFEST = {
-    "level_text": "Machine-checked Lean 4 theorems about the executable decoder/parser model: the buffer bound is an inductive invariant of receive_data/next_event over every operation sequence, the part counter bounds the number of part events, the accumulated size of a non-file field is bounded, decoding/parsing under limits that succeeds equals decoding/parsing without limits for every chunk sequence (simulation), and the repaired urlencoded read never holds more than max+1 bytes and accepts iff the body fits. Request level (Request._load_form_data / get_data / stream / make_form_data_parser, FormDataParser.parse dispatch): for every access history on one Request object every parser run gets the request's limits, no history takes more than max_content_length bytes from wsgi.input, a declared length above the maximum makes every access answer 413 without reading, get_data() before the form access changes nothing, and the first form access equals the parser models with the request's limits; the limit plumbing and the glue statements are regenerated from the source by AST on every run. Models tied to the code by differential streams (len(decoder.buffer) observed after every receive; access histories on real Request objects).",
+    "level_text": "Machine-checked Lean 4 theorems about the executable decoder/parser model: the buffer bound is an inductive invariant of receive_data/next_event over every operation sequence, the part counter bounds the number of part events, the accumulated size of a non-file field is bounded, decoding/parsing under limits that succeeds equals decoding/parsing without limits for every chunk sequence (simulation), the repaired urlencoded read never holds more than max+1 bytes and accepts iff the body fits, every guard is exact at its boundary (buffer, part counter, accumulated field size: refused iff the limit is exceeded), the returned fields + files never exceed max_form_parts, and the parser raises nothing but ValueError / UnicodeDecodeError / RequestEntityTooLarge. Request level (Request._load_form_data / get_data / stream / make_form_data_parser, FormDataParser.parse dispatch): for every access history on one Request object every parser run gets the request's limits, limits are pure guards access by access (simulation against the request without limits, error for error), no history takes more than max_content_length bytes from wsgi.input, a declared length above the maximum makes every access answer 413 without reading, get_data() before the form access changes nothing, and the first form access equals the parser models with the request's limits; the limit plumbing and the glue statements are regenerated from the source by AST on every run. Models tied to the code by differential streams (len(decoder.buffer) observed after every receive; access histories on real Request objects).",
     "level_note": "Trusted: Lean kernel; extract.py; harness; CPython io. LimitedStream enters the request-level model through a closed form validated by stream request-histories (its own model and theorems are C09's). Known finding F10b (read() stops at the streaming maximum without raising) is the explicit exclusion.",
     "technique": "Lean 4 proof (inductive invariants, simulation) + model/code correspondence",
     "design_ref": "DESIGN.md section 4, C10",
